@@ -146,6 +146,11 @@ func (pr *Loader) findTableBuffer(s tableSection, dst []byte) ([]byte, error) {
 			dst = make([]byte, s.length)
 		}
 		dst = dst[0:s.length]
+		if s.length == 0 {
+			// nothing to read: avoid the io.EOF some readers (like bytes.Reader)
+			// report for an empty read at the end of the file
+			return dst, nil
+		}
 		if _, err := pr.file.ReadAt(dst, int64(s.offset)); err != nil {
 			return nil, err
 		}
